@@ -195,6 +195,21 @@ def _random(spec, ctx, R):
                 dev = np.abs(prod - EAB[name][0]).max()
                 ctx.check("homomorphism", dev, 64 * (4 * k + 2) * refq.EPS * scale + 1e-300, site=name,
                           detail={"class": cls, "shape": [m, k, n]})
+            # the same identity with the product formed by the LIBRARY (what a user composing the two would see); the contraction of the
+            # real product is the library's product
+            try:
+                ABl = U.quat_matmat(A.copy(), B.copy())
+                ELl = _embeddings(U, ABl)
+                for name in EA:
+                    if name in EB and name in ELl:
+                        dev = np.abs(EA[name][0] @ EB[name][0] - ELl[name][0]).max()
+                        ctx.check("homomorphism", dev, 64 * (4 * k + 2) * refq.EPS * scale + 1e-300, site=name + ":library_product",
+                                  detail={"class": cls, "shape": [m, k, n]})
+                back = U.real_contract(EA["real_expand"][0] @ EB["real_expand"][0], m, n)
+                ctx.check("homomorphism", float(refq.absq(back - ABl).max()), 64 * (4 * k + 2) * refq.EPS * scale + 1e-300,
+                          site="real_contract(expand*expand):library_product", detail={"class": cls})
+            except Exception as e:
+                ctx.check("homomorphism", False, site="library_product", detail={"exception": repr(e)[:200]})
         # real-linearity on dyadic data (exact)
         Ai = gen.entries(rng, "int", m, k)
         Bi = gen.entries(rng, "int", m, k)
